@@ -1005,11 +1005,23 @@ func inAesNewCipher(ex *Exec, fn *ssa.Function, args []Value, site string) Value
 }
 
 func (ex *Exec) aesBlock(key Array, in []*T) []*T {
-	args := make([]*T, 0, len(key.E)+16)
-	for _, k := range key.E {
-		args = append(args, k.(*T))
+	// AES as an uninterpreted function of the key and the block, each packed into 64-bit words
+	pack := func(bs []*T) []*T {
+		var out []*T
+		for i := 0; i+8 <= len(bs); i += 8 {
+			w := bs[i]
+			for j := 1; j < 8; j++ {
+				w = ex.C.Concat(w, bs[i+j])
+			}
+			out = append(out, w)
+		}
+		return out
 	}
-	args = append(args, in...)
+	kb := make([]*T, len(key.E))
+	for i, k := range key.E {
+		kb[i] = k.(*T)
+	}
+	args := append(pack(kb), pack(in)...)
 	out := make([]*T, 16)
 	for i := range out {
 		out[i] = ex.C.App(fmt.Sprintf("AES%d_%d", len(key.E)*8, i), smt.BV(8), args...)
@@ -1158,4 +1170,54 @@ func (ex *Exec) ufCall(fn *ssa.Function, sym string, args []Value) Value {
 		tu[i] = mk(res.At(i).Type(), fmt.Sprintf("_%d", i))
 	}
 	return tu
+}
+
+// ufSliceCall: the call returns a fresh slice of n elements (n = the designated integer argument); element i is
+// the uninterpreted function SYM_i applied to all other (scalar / array / byte-slice) arguments.
+func (ex *Exec) ufSliceCall(fn *ssa.Function, us ufSliceSpec, args []Value, site string) Value {
+	var ts []*T
+	var flatten func(v Value)
+	flatten = func(v Value) {
+		switch x := v.(type) {
+		case *T:
+			ts = append(ts, x)
+		case Array:
+			for _, e := range x.E {
+				flatten(e)
+			}
+		case Struct:
+			for _, e := range x.F {
+				flatten(e)
+			}
+		case Slice:
+			for _, b := range ex.sliceBytes(x, "uf") {
+				ts = append(ts, b)
+			}
+		default:
+			panic(unsupported(fmt.Sprintf("UFSlice argument of kind %T", v)))
+		}
+	}
+	var n uint64
+	for i, a := range args {
+		if i == us.lenArg {
+			t := a.(*T)
+			n = ex.concretize(t, "UFSlice length", 4096)
+			continue
+		}
+		flatten(a)
+	}
+	if int64(n) < 0 || n > 1<<16 {
+		ex.programPanic("makeslice: len out of range (UFSlice)", site)
+	}
+	st, ok := fn.Signature.Results().At(0).Type().Underlying().(*types.Slice)
+	if !ok {
+		panic(unsupported("UFSlice on function not returning a slice"))
+	}
+	w := ex.widthOf(st.Elem())
+	o := ex.newArrayObj(st.Elem(), int(n), "ufslice@"+site)
+	for i := uint64(0); i < n; i++ {
+		o.Root.Kids[i].V = ex.C.App(fmt.Sprintf("%s_%d_a%d", us.sym, i, len(ts)), smt.BV(w), ts...)
+	}
+	k := ex.k64(int64(n))
+	return Slice{Arr: o.Root, Off: ex.k64(0), Len: k, Cap: k}
 }
